@@ -452,17 +452,31 @@ def _dec_judge(i, pkt, events, sec, prev):
                 if snap != sec["S%d" % cls]:
                     return "prog-info-event: %s PROG_INFO differs from the stored information" % where
             elif k == "asp":
-                want = "22.262.1" if (cls, typ) == (2, 1) else sec["S%d" % (cls if cls in (0, 1) else 0)]["asp"]
-                if e["asp"] != want:
-                    if fut9: raise _Quirk(SIG_FUTASP + ": aspect ratio packet of the future class announced as current aspect ratio (" + where + ")")
-                    if typ in (1, 3) and cls in (0, 1) and e["asp"] == prev["S%d" % cls]["asp"]:
-                        raise _Quirk(SIG_FLUSHASP + ": flush_prog_info announces the aspect ratio it has just erased (" + where + ")")
-                    return "prog-info-event: %s ASPECT %s, stored %s" % (where, e["asp"], want)
+                if (cls, typ) == (2, 1):
+                    if e["asp"] != "22.262.1":
+                        return "prog-info-event: %s ASPECT %s after the channel switch" % (where, e["asp"])
+                elif cls in (0, 1) and typ in (1, 3):
+                    # flush_prog_info: only the programme on screen (current) is announced, with what is stored now
+                    if not (cls == 0 and e["asp"] == sec["S0"]["asp"]):
+                        if e["asp"] == prev["S%d" % cls]["asp"]:
+                            raise _Quirk(SIG_FLUSHASP + ": flush_prog_info announces the aspect ratio it has just erased"
+                                         + (" - of the future programme" if cls == 1 else "") + " (" + where + ")")
+                        if cls == 1 and e["asp"] == sec["S1"]["asp"]:
+                            raise _Quirk(SIG_FLUSHASP + ": flush_prog_info raises ASPECT for the future programme (" + where + ")")
+                        return "prog-info-event: %s ASPECT %s, stored %s" % (where, e["asp"], sec["S0"]["asp"])
+                else:
+                    want = sec["S%d" % (cls if cls in (0, 1) else 0)]["asp"]
+                    if e["asp"] != want or cls != 0:
+                        if fut9: raise _Quirk(SIG_FUTASP + ": aspect ratio packet of the future class announced as current aspect ratio (" + where + ")")
+                        return "prog-info-event: %s ASPECT %s, stored %s" % (where, e["asp"], want)
             elif k == "net":
                 if (e.get("name"), e.get("call"), e.get("nuid")) != (sec["SN"]["name"], sec["SN"]["call"], sec["SN"]["nuid"]):
                     return "prog-info-event: %s NETWORK differs from the stored network" % where
             elif k != "netid":
                 return "prog-info-event: %s unexpected event %s" % (where, k)
+        if cls == 0 and typ in (1, 3) and prev["S0"]["asp"] != PI_UNSET["asp"] and sec["S0"]["asp"] == PI_UNSET["asp"] \
+                and "asp" not in kinds:
+            return "prog-info-event: %s erased the current aspect ratio without ASPECT" % where
         if cls in (0, 1):
             pend = prev["SC"]["cyc%d" % cls].split(",")
             want_pi = exp is not None and not changed and str(typ) in pend
@@ -574,8 +588,9 @@ class C09(verif.Spec):
                     "`extents` op, flags by the corpus replays)",
                     "harness/xds_harness.c incl. the macro that redirects the xds_decoder call to a printing hook",
                     "lib/xds_util.py reference receiver = my reading of EIA-608 XDS packet framing",
-                    "Dec.lean: array extents and caption ids are constants cross-checked by the harness op `extents2`; the three "
-                    "control-flow constants are compared with patterns in src/caption.c (dec-quirk-flag)"]
+                    "Dec.lean: array extents and caption ids are constants cross-checked by the harness op `extents2`",
+                    "translate/gen_xdsdec.py (four control-flow flags of xds_decoder / flush_prog_info read from src/caption.c; "
+                    "cross-checked by the per-field correspondence run)"]
     open_statements = ["C09Sep.prog_info_equals_packets_full (induction over packet histories; per-call lemmas are proved)"]
 
     # ------------------------------------------------------------------ generation
@@ -928,19 +943,16 @@ class C09(verif.Spec):
         return cases
 
     def dec_flags(self):
-        """the three control-flow facts Dec.lean is written for, against the patterns in src/caption.c"""
+        """the control-flow facts translate/gen_xdsdec.py read from src/caption.c for the model `Dec`"""
         import re
-        src = open(os.path.join(verif.REPO, "src", "caption.c"), errors="replace").read()
-        lean = open(os.path.join(verif.LEAN, "ZvbiModel", "Xds", "Dec.lean")).read()
-        code = {"capLangClearedFirst": bool(re.search(r"pi->caption_language\[i\]\s*=\s*NULL", src)),
-                "flushSendsOldAspect": bool(re.search(r"e->ev\.aspect\s*=\s*pi->aspect;\s*vbi_reset_prog_info", src)),
-                "aspectAlwaysCurrent": bool(re.search(r"vbi->prog_info\[0\]\.aspect\s*=\s*\*r", src))}
-        bad = []
-        for k, v in code.items():
-            m = re.search(r"def %s : Bool := (true|false)" % k, lean)
-            if not m or (m.group(1) == "true") != v:
-                bad.append("%s: source says %s, Dec.lean says %s" % (k, v, m.group(1) if m else "?"))
-        return code, bad
+        out = {}
+        try:
+            for m in re.finditer(r"def (\w+) : Bool := (true|false)",
+                                 open(os.path.join(verif.LEAN, "ZvbiModel", "Generated", "XdsDecFlags.lean")).read()):
+                out[m.group(1)] = m.group(2) == "true"
+        except OSError:
+            pass
+        return out, ([] if len(out) == 4 else ["Generated/XdsDecFlags.lean missing or incomplete"])
 
     def extra_checks(self, ctx):
         bad = self.extra_checks_svc(ctx)
